@@ -136,6 +136,15 @@ def programs(tier: str):
             yield {"block": {"kind": "ascope", "supply": [], "disp": disp, "pause": False, "ending": ending}, "cancels": 0}
             if other:
                 yield {"block": {"kind": "ascope", "supply": [], "disp": list(reversed(disp)), "pause": False, "ending": ending}, "cancels": 0}
+    # roll-back whose clean-up fails with a non-Exception BaseException: it surfaces as well
+    for failing in ("raise", "susp_raise", "raise_base"):
+        for ent in ("ok", "susp_ok"):
+            for third in (None, ("ok", "raise")):
+                disp = [{"enter": failing, "exit": "ok", "yields": "none"}, {"enter": ent, "exit": "raise_base", "yields": "none"}]
+                if third:
+                    disp.append({"enter": third[0], "exit": third[1], "yields": "none"})
+                yield {"block": {"kind": "ascope", "supply": [], "disp": disp, "pause": False, "ending": "return"}, "cancels": 0}
+                yield {"block": {"kind": "ascope", "supply": [], "disp": list(reversed(disp)), "pause": False, "ending": "return"}, "cancels": 0}
     if tier == "thorough":
         default = {"enter": "ok", "exit": "ok", "yields": "none"}
         beh = [b for b in _behaviours(False) if b != default and b["yields"] == "none"]
@@ -367,6 +376,13 @@ def _reuse(program, ch: Chooser) -> Result:  # noqa: C901, PLR0912, PLR0915
                 for e in errs:
                     if caught[u] is not None and not _reaches(caught[u], e):
                         viols.append(viol("cleanup-error-surfaces", f"reuse/lost/{first}", f"{e} reachable from the caller's exception", repr(caught[u])[:100], log=log))
+        from hv.core import raised_in_library
+
+        for u in sorted(caught):
+            hit = raised_in_library(caught[u])
+            if hit:
+                viols.append(viol("unexpected-exception", hit, "the use ends with its body's / its disposables' exception", repr(caught[u])[:120], log=log))
+                break
         interesting = len(uses) > 1 and any("raise" in (s_["A"] + s_["B"]) or s_["ending"] == "raise" for s_ in uses[:-1])
         return Result(f"reuse/{len(uses)}/cancelled={len(cancelled_use)}", interesting or bool(cancelled_use), viols[:6], {"log": log[:40], "trace": w.trace})
     finally:
@@ -497,6 +513,7 @@ def execute(program, ch: Chooser) -> Result:  # noqa: C901, PLR0912, PLR0915
         susp = sum(1 for d in ds if "susp" in d.spec["enter"] or "susp" in d.spec["exit"])
         nontrivial = failing > 0 or susp > 0 or raised is not None or cancelled
         outcome = f"k={len(ds)}/fail={min(failing, 2)}/susp={min(susp, 2)}/body={'ran' if body_idx is not None else 'skipped'}/caught={type(caught).__name__ if caught else None}/c={cancelled}"
+        viols.extend(r.library_errors())
         return Result(outcome, nontrivial, viols[:5], obs)
     finally:
         r.close()
